@@ -328,7 +328,7 @@ theorem q2_initial_state_inv (cap : Nat) (etag : Bytes) (a b c d e : Nat) (x y :
 /-- In every state with the invariant — so after ANY arrival sequence — a recovery request names only blocks whose offset
 lies inside the body (`total_len`), never a block at or beyond its end, and only 20-bit numbers — for EVERY `total_len`
 (whatever Size2 the peer announced: `coap_request_missing_q_block2` limits the length it works with to the 2^20 blocks a
-Q-Block2 option can address, fix 856b47c; before it `total_len ≤ 2^20 blocks` was a hypothesis of the second claim). -/
+Q-Block2 option can address, fix 00bcbc1; before it `total_len ≤ 2^20 blocks` was a hypothesis of the second claim). -/
 theorem q2_recovery_inside_body (cap mp : Nat) (hmp : 0 < mp) (useM : Bool) (st : Q2State) (h : Q2Inv cap st) :
     ∀ q, q ∈ (reqMissingQ2 mp useM st.rs st.szx st.totalLen).1 →
       q.1 * 2 ^ (st.szx + 4) < st.totalLen ∧ q.1 < 2 ^ 20 := by
@@ -406,7 +406,7 @@ example : Q2Inv 16 ⟨false, false, [], 100, 0, 0, [(0, 1), (4, 4)], 0, 0⟩ :=
     refine ⟨by omega, ?_⟩
     show k * 2 ^ (0 + 4) < 100
     omega⟩
-/-- finding c02-qblock2-num-2e20 (fixed, 856b47c): with `total_len` > 2^20 blocks the M variant asked for block 2^20 (a 21-bit
+/-- finding c02-qblock2-num-2e20 (fixed, 00bcbc1): with `total_len` > 2^20 blocks the M variant asked for block 2^20 (a 21-bit
 number: `reqMissingQ2At` is the function without the clamp); now the length is limited and the gap in front is asked for -/
 example : reqMissingQ2At 2 true [(1048575, 1048575)] 0 16777217 = ([(1048576, 1)], some 524288) := by decide
 example : reqMissingQ2 2 true [(1048575, 1048575)] 0 16777217 = ([(0, 0), (1, 0)], some 0) := by decide
